@@ -97,6 +97,37 @@ def _run_main(ctx):
             except Exception:
                 ctx.count("same_stride_rejected")
                 continue
+        elif i % 8 == 1:
+            # a pooling node given explicit type keywords (e.g. a ceil-mode annotation from an exporter): the constructor
+            # derives nothing from them, so the graph means what kernel / stride / padding say - before and after any round trip
+            c, n0 = rng.randrange(1, 4), rng.choice([7, 9, 15])
+            pk = rng.choice(["SumPool2d", "AvgPool2d"])
+            o = (n0 - 2) // 2 + 1
+            bogus = lambda key, v: {"d": [[key, {"a": "<i8", "sh": [3], "x": np.array(v, dtype="<i8").tobytes().hex()}]]}
+            kw = [["kernel_size", gen.pyint(2)], ["stride", gen.pyint(2)], ["padding", gen.pyint(0)]]
+            if "output_type" in gen._init_fields(pk):
+                kw.append(["output_type", bogus("output", [c, o + 1, o + 1])])
+            if "input_type" in gen._init_fields(pk) and rng.random() < 0.5:
+                kw.append(["input_type", bogus("input", [c, n0, n0])])
+            nodes = [["in", {"type": "Input", "kwargs": [["input_type", gen.shape_arg(rng, [c, n0, n0], "input")]]}],
+                     ["pool", {"type": pk, "kwargs": kw}], ["out", {"type": "Output", "kwargs": [["output_type", None]]}]]
+            g = {"type": "NIRGraph", "nodes": nodes, "edges": [["in", "pool"], ["pool", "out"]], "meta": None}
+            truth = {"in": ([c, n0, n0], [c, n0, n0]), "pool": ([c, n0, n0], [c, o, o]), "out": ([c, o, o], [c, o, o])}
+            erased = ["pool", "out"]
+            ctx.count("pooling_with_explicit_type_keywords")
+        elif i % 8 == 5:
+            # a consistent graph over *scalar* signals: rank-0 (0-d array) parameters, the empty shape on every port
+            empty = {"a": "<i8", "sh": [0], "x": ""}
+            nodes = [["in", {"type": "Input", "kwargs": [["input_type", empty]]}]]
+            truth = {"in": ([], [])}
+            for j in range(rng.randrange(1, 4)):
+                kd = rng.choice(["Scale", "Threshold", "LIF", "LI", "IF", "Delay"])
+                nodes.append([f"s{j}", gen.node_recipe(rng, kd, sh=[], dtype="<f8", meta_p=0.0)]); truth[f"s{j}"] = ([], [])
+            nodes.append(["out", {"type": "Output", "kwargs": [["output_type", None]]}]); truth["out"] = ([], [])
+            names = [n for n, _ in nodes]
+            g = {"type": "NIRGraph", "nodes": nodes, "edges": [[a, b] for a, b in zip(names, names[1:])], "meta": None}
+            erased = ["out"]
+            ctx.count("scalar_signal_graphs")
         elif grouped:
             # groups > 1 is outside C06/C08's stated domain (declared conv input channels ignore `groups`), so only
             # the commutation clause -- which the code does satisfy there -- is checked on these graphs
